@@ -7,7 +7,10 @@ constructor arguments and by attribute assignment, packs, re-parses, calls asser
 from lib import common, valuesprofile as vp
 from bind import replay_packet as rp
 
-OWNED = {"C02_PackSucceeds", "C02_Layout", "C02_Reparse", "C02_AssertConsistency", "conf_assert_consistency"}
+OWNED = {"C02_PackSucceeds", "C02_Layout", "C02_Reparse", "C02_AssertConsistency", "conf_assert_consistency",
+         # the bytes are each field's encoding at its declared position: with positioning the pack machine
+         # (reference placement rules, MoveTarget) determines them uniquely; so does a re-pack after assignment
+         "conf_out", "conf_out2", "C07_Pack2"}
 
 
 def run(tier, seed):
@@ -15,6 +18,7 @@ def run(tier, seed):
     common.bind_repo()
     gens = [rp.GEN_OFF, None]
     vp.exhaustive_part(v, "U_C02", ["Inv_C02_Reparse", "Inv_C02_Layout"], gens, OWNED)
+    vp.exhaustive_part(v, "U_C02_Pos", ["Inv_C02_Reparse", "Inv_C02_Layout", "Inv_Pack2", "Inv_C02_PosReparse"], gens, OWNED)
     v.cov["exhaustive"] = True
     v.cov["rule"] = ("TLC enumerates U_C02 x all complete value assignments from the per-kind domains (Values.tla); each is "
                      "constructed (constructor and attribute assignment), packed and re-parsed on real classes under generic and "
